@@ -385,6 +385,47 @@ def denote(expr: ast.AST, defs: Defs, keep=("self", "other")):
     return poly(e, resolve)
 
 
+def check_hash_not_finer_than_eq(ctx, rule: str):
+    """Sums are compared (and Hermiticity is tested) through *sets* of terms, so two terms that `==` calls equal must fall into one
+    hash bucket far more often than not. `==` is tolerant (isclose on the coefficient); the hash therefore has to be taken of the
+    coefficient *rounded* to a grid much coarser than that tolerance -- hashing the raw number separates terms that differ by one
+    unit in the last place (1.2e-16j of float noise on a real coefficient)."""
+    repo = ctx.repo
+    te = repo.func(f"{MOD}:PauliTerm.__eq__")
+    th = repo.func(f"{MOD}:PauliTerm.__hash__")
+    tolerant = any(isinstance(c, ast.Call) and (dotted(c.func) or "").split(".")[-1] in ("isclose", "allclose") for c in body_walk(te.node))
+    if not tolerant:
+        ctx.ok(rule, th.key + ":coarser-than-eq", "term equality is exact: any hash of the same fields is consistent", th)
+        return
+    hs = [n for n in body_walk(th.node) if isinstance(n, ast.Call) and dotted(n.func) == "hash"]
+    if not hs:
+        ctx.undecided(rule, th.key + ":coarser-than-eq", "no hash(...) call found", th)
+        return
+    d = Defs(th.node)
+    raw = []
+
+    def coeff_uses(e, rounded):
+        if isinstance(e, ast.Call) and dotted(e.func) == "round":
+            for a in e.args:
+                coeff_uses(a, True)
+            return
+        if isinstance(e, ast.Attribute) and e.attr == "coefficient" and norm(e.value) == "self":
+            if not rounded:
+                raw.append(e)
+            return
+        if isinstance(e, ast.Name):
+            for v in d.defs.get(e.id, []):
+                if isinstance(v, ast.AST):
+                    coeff_uses(v, rounded)
+            return
+        for ch in ast.iter_child_nodes(e):
+            coeff_uses(ch, rounded)
+
+    for a in hs[-1].args:
+        coeff_uses(a, False)
+    ctx.check(not raw, rule, th.key + ":coarser-than-eq", "the hash sees the coefficient only through round(...)", f"PauliTerm.__hash__ hashes the coefficient itself (`{short(hs[-1], 80)}`) while PauliTerm.__eq__ is tolerant: two terms that compare equal (a real coefficient and the same value with 1e-16j of rounding noise) get different hashes, so the set comparisons behind PauliSum.__eq__ and is_hermitian call equal operators different", f"{th.module.relpath}:{hs[-1].lineno}")
+
+
 def check_operand_truthiness(ctx):
     """An operator's truth value is its __len__ -- the number of non-identity factors of a term, the number of terms of a sum --
     not "is it zero": the constant term 3*I is falsy without being zero. An arithmetic method that branches on the truthiness of
@@ -839,6 +880,7 @@ def check_equality(ctx):
     hs = [n for n in body_walk(th.node) if isinstance(n, ast.Call) and dotted(n.func) == "hash"]
     ok = bool(hs) and "self.operations" in norm(hs[-1]) and "coefficient" in norm(th.node)
     ctx.check(ok, R6, th.key, "hash covers the rounded coefficient and the operator part (consistent with ==)", "PauliTerm.__hash__ no longer covers both the coefficient and the operators: set-based sum equality then conflates different terms or splits equal ones", th)
+    check_hash_not_finer_than_eq(ctx, R6)
     # tolerance literals anywhere in the module
     n = 0
     for fi in mod.functions.values():
